@@ -9,7 +9,10 @@
      unit n-1, second series port b               -> the net of module port b                 (end)
      unit k, port b (k < n-1) and unit k+1, port a -> private net "chain k", shared with nothing else
    Two terminals are on one net iff they have the same key; `same_partition` compares that with the nets
-   observed in a package.  (Series ports wider than one bit: the same statement bit by bit.) *)
+   observed in a package.  Series ports of width w >= 1 (the property ranges over unit cells with BUS ports and over
+   all ordered pairs of distinct unit ports): the same statement bit by bit - bit j of port b of unit k and bit j of
+   port a of unit k+1 are on the private net `KChain k j`, and there are (n-1)*w private nets.  Joining a port to a port
+   of another width means nothing: such a pair (n >= 2) is among the inputs on which nothing can be built. *)
 Require Import Hdl21.Base.PyInt Hdl21.Base.Design.
 From Coq Require String.
 Open Scope string_scope.
@@ -76,15 +79,16 @@ Fixpoint same_partition {A B} (ea : A -> A -> bool) (eb : B -> B -> bool) (la : 
   | _, _ => false
   end.
 
-(* the inputs the property quantifies over: n >= 1; for n >= 2 an ordered pair of distinct one-bit
-   signal-valued ports of the unit *)
+(* the inputs the property quantifies over: n >= 1; for n >= 2 an ordered pair of distinct signal-valued ports of the
+   unit of one width (one bit or a bus) *)
 Definition sig_width (u : unit) (c : name) : option Z := assoc c (u_sigs u).
 
 Definition valid_series (u : unit) (a b : name) (n : Z) : bool :=
   (1 <=? n) &&
   ((n =? 1) || (negb (String.eqb a b) &&
-                match sig_width u a, sig_width u b with Some 1, Some 1 => true | _, _ => false end)).
+                match sig_width u a, sig_width u b with Some wa, Some wb => (1 <=? wa) && (wa =? wb) | _, _ => false end)).
 
-(* inputs on which nothing can be built: n < 1, or (n >= 2) a series port that is not a signal-valued port of the unit *)
+(* inputs on which nothing can be built: n < 1, or (n >= 2) a series port that is not a signal-valued port of the unit,
+   or two series ports of different widths *)
 Definition must_reject_series (u : unit) (a b : name) (n : Z) : bool :=
-  (n <? 1) || ((2 <=? n) && match sig_width u a, sig_width u b with Some _, Some _ => false | _, _ => true end).
+  (n <? 1) || ((2 <=? n) && match sig_width u a, sig_width u b with Some wa, Some wb => negb (wa =? wb) | _, _ => true end).
